@@ -364,7 +364,8 @@ def wrap_line(line: str) -> str:
     The wrapping will only be at whitespace, not inside words.
     """
     maxlen = 79
-    if len(line) < maxlen:
+    if len(line) <= maxlen + 1:
+        # SHELXL reads 80 columns, these lines fit as they are.
         line = ''.join(line)
         return line
     # SHELXL reads 80 columns: a blank and two characters indentation in front of and ' =' behind each part have to fit.
